@@ -65,6 +65,11 @@ const (
 	c24G     = "g" // group the permission atoms talk about (exists or not)
 	c24S     = "s" // second topic covered by the same atoms as t (produce:t / fetch:t grant t AND s); never exists initially
 	c24H     = "h" // group that never exists and alice never has rights on
+	// names that differ from a permitted name only in letter case: the store, the partition
+	// logs and the coordinator keep them apart from t / g, so they are different resources
+	// and no permission atom covers them
+	c24TUp = "T" // topic; exists (with data) in the worlds where t exists, otherwise missing and auto-creatable
+	c24GUp = "G" // group; never exists initially
 )
 
 // c24TopicAlphabet: the names multi-topic requests are built from. In a world where t
@@ -675,6 +680,82 @@ func c24BuildRequests() []c24ReqSpec {
 		l := l
 		add(name("Metadata", l, ""), 8, func(*c24World) kmsg.Request { return c24MetadataReq(l...) }, c24MetadataNeeds(l...))
 	}
+	// names differing from a permitted name only in letter case (appended last: the indexes
+	// above are referenced by stored replays). Topic T next to t in every request type that
+	// authorizes by topic name, alone and next to t in both orders; group G next to g in every
+	// request type that authorizes by group name. No atom covers them (the wildcard fetch
+	// grant of the WildFetch worlds does, as it covers every topic but u).
+	add("Metadata[T]", 8, func(*c24World) kmsg.Request { return c24MetadataReq(c24TUp) }, c24MetadataNeeds(c24TUp))
+	add("Produce[T]acks=1", 7, func(w *c24World) kmsg.Request { return c24ProduceReq(1, w.tag(), c24TUp) }, c24TopicNeeds(c24ProduceAtom, c24TUp))
+	add("Produce[T]acks=0", 7, func(w *c24World) kmsg.Request { return c24ProduceReq(0, w.tag(), c24TUp) }, c24TopicNeeds(c24ProduceAtom, c24TUp))
+	for _, l := range [][]string{{c24T, c24TUp}, {c24TUp, c24T}} {
+		l := l
+		add(name("Produce", l, "acks=1"), 7, func(w *c24World) kmsg.Request { return c24ProduceReq(1, w.tag(), l...) }, c24TopicNeeds(c24ProduceAtom, l...))
+	}
+	for _, l := range [][]string{{c24TUp}, {c24T, c24TUp}, {c24TUp, c24T}} {
+		l := l
+		add(name("Fetch", l, ""), 11, func(*c24World) kmsg.Request { return c24FetchReq(l...) }, c24TopicNeeds(c24FetchAtom, l...))
+	}
+	add("FetchByID[T]", 13, func(w *c24World) kmsg.Request { return c24FetchByIDReq(w, c24TUp) }, func(w *c24World) []c24Need {
+		if w.topicName(w.topicID(c24TUp)) != c24TUp {
+			return nil // T does not exist: the request carries an unknown id and names no resource
+		}
+		return c24TopicNeeds(c24FetchAtom, c24TUp)(w)
+	})
+	add("ListOffsets[T]latest", 1, func(*c24World) kmsg.Request { return c24ListOffsetsReq(-1, c24TUp) }, c24TopicNeeds(c24FetchAtom, c24TUp))
+	add("ListOffsets[t,T]earliest", 1, func(*c24World) kmsg.Request { return c24ListOffsetsReq(-2, c24T, c24TUp) }, c24TopicNeeds(c24FetchAtom, c24T, c24TUp))
+	add("OffsetForLeaderEpoch[T]", 3, func(*c24World) kmsg.Request { return c24OffsetForLeaderEpochReq(c24TUp) }, c24TopicNeeds(c24FetchAtom, c24TUp))
+	for _, l := range [][]string{{c24TUp}, {c24T, c24TUp}} {
+		l := l
+		shown := make([]string, len(l))
+		for i, x := range l {
+			shown[i] = "topic " + x
+		}
+		add(name("DescribeConfigs", shown, ""), 4, func(*c24World) kmsg.Request { return c24DescribeConfigsReq(l...) }, c24TopicNeeds(c24FetchAtom, l...))
+	}
+	needG := func(*c24World) []c24Need { return []c24Need{{Kind: "group", Name: c24GUp, Atom: ""}} }
+	add("JoinGroup[G]", 4, func(*c24World) kmsg.Request {
+		r := c24JoinReq("")
+		r.Group = c24GUp
+		return r
+	}, needG)
+	add("SyncGroup[G]", 4, func(w *c24World) kmsg.Request {
+		r := kmsg.NewPtrSyncGroupRequest()
+		r.Group, r.MemberID, r.Generation = c24GUp, w.member, w.generation
+		return r
+	}, needG)
+	add("Heartbeat[G]", 4, func(w *c24World) kmsg.Request {
+		r := kmsg.NewPtrHeartbeatRequest()
+		r.Group, r.MemberID, r.Generation = c24GUp, w.member, w.generation
+		return r
+	}, needG)
+	add("LeaveGroup[G]", 4, func(w *c24World) kmsg.Request {
+		r := kmsg.NewPtrLeaveGroupRequest()
+		r.Group, r.MemberID = c24GUp, w.member
+		return r
+	}, needG)
+	add("OffsetCommit[G][t]", 3, func(w *c24World) kmsg.Request {
+		r := c24OffsetCommitReq(w, c24T).(*kmsg.OffsetCommitRequest)
+		r.Group = c24GUp
+		return r
+	}, needG)
+	add("OffsetFetch[G][t]", 5, func(*c24World) kmsg.Request {
+		r := kmsg.NewPtrOffsetFetchRequest()
+		r.Group = c24GUp
+		t := kmsg.NewOffsetFetchRequestTopic()
+		t.Topic = c24T
+		t.Partitions = []int32{0}
+		r.Topics = append(r.Topics, t)
+		return r
+	}, needG)
+	for _, l := range [][]string{{c24GUp}, {c24G, c24GUp}, {c24GUp, c24G}} {
+		l := l
+		add(name("DescribeGroups", l, ""), 5, func(*c24World) kmsg.Request {
+			r := kmsg.NewPtrDescribeGroupsRequest()
+			r.Groups = append([]string(nil), l...)
+			return r
+		}, c24GroupsNeeds(c24GroupReadAtom, l...))
+	}
 	return out
 }
 
@@ -755,6 +836,7 @@ func c24NewWorld(cfg c24WorldCfg, stats *c24Stats) *c24World {
 	topics := map[string]int{c24U: 1}
 	if cfg.TopicExists {
 		topics[c24T] = 1
+		topics[c24TUp] = 1
 	}
 	w.store = metadata.NewInMemoryStore(vMeta(topics))
 	w.h = vNewHandler(w.store, s3)
@@ -769,6 +851,7 @@ func c24NewWorld(cfg c24WorldCfg, stats *c24Stats) *c24World {
 	seed := map[string]map[int32][]byte{c24U: {0: enum.SimpleBatch("seed-u", 2, 6)}}
 	if cfg.TopicExists {
 		seed[c24T] = map[int32][]byte{0: enum.SimpleBatch("seed-t", 2, 6)}
+		seed[c24TUp] = map[int32][]byte{0: enum.SimpleBatch("seed-T", 2, 6)}
 	}
 	res, err := vProduce(w.h, -1, seed)
 	if err != nil {
@@ -987,23 +1070,23 @@ func (w *c24World) entries(req kmsg.Request, resp kmsg.Response) []c24Entry {
 		if r.ErrorCode == 0 && r.MemberID != "" {
 			w.ids = append(w.ids, r.MemberID)
 		}
-		out = append(out, c24Entry{"group", c24G, r.ErrorCode, 0})
+		out = append(out, c24Entry{"group", c24ReqGroup(req), r.ErrorCode, 0})
 	case *kmsg.SyncGroupResponse:
-		out = append(out, c24Entry{"group", c24G, r.ErrorCode, 0})
+		out = append(out, c24Entry{"group", c24ReqGroup(req), r.ErrorCode, 0})
 	case *kmsg.HeartbeatResponse:
-		out = append(out, c24Entry{"group", c24G, r.ErrorCode, 0})
+		out = append(out, c24Entry{"group", c24ReqGroup(req), r.ErrorCode, 0})
 	case *kmsg.LeaveGroupResponse:
-		out = append(out, c24Entry{"group", c24G, r.ErrorCode, 0})
+		out = append(out, c24Entry{"group", c24ReqGroup(req), r.ErrorCode, 0})
 	case *kmsg.OffsetCommitResponse:
 		for _, t := range r.Topics {
 			for _, p := range t.Partitions {
-				out = append(out, c24Entry{"group", c24G, p.ErrorCode, 0})
+				out = append(out, c24Entry{"group", c24ReqGroup(req), p.ErrorCode, 0})
 			}
 		}
 	case *kmsg.OffsetFetchResponse:
 		for _, t := range r.Topics {
 			for _, p := range t.Partitions {
-				out = append(out, c24Entry{"group", c24G, p.ErrorCode, 0})
+				out = append(out, c24Entry{"group", c24ReqGroup(req), p.ErrorCode, 0})
 			}
 		}
 	case *kmsg.DescribeGroupsResponse:
@@ -1042,6 +1125,25 @@ func (w *c24World) entries(req kmsg.Request, resp kmsg.Response) []c24Entry {
 		}
 	}
 	return out
+}
+
+// c24ReqGroup: the group a single-group request names (its reply does not repeat the name).
+func c24ReqGroup(req kmsg.Request) string {
+	switch r := req.(type) {
+	case *kmsg.JoinGroupRequest:
+		return r.Group
+	case *kmsg.SyncGroupRequest:
+		return r.Group
+	case *kmsg.HeartbeatRequest:
+		return r.Group
+	case *kmsg.LeaveGroupRequest:
+		return r.Group
+	case *kmsg.OffsetCommitRequest:
+		return r.Group
+	case *kmsg.OffsetFetchRequest:
+		return r.Group
+	}
+	return c24G
 }
 
 func c24Category(key, before, after string, hadBefore, hasAfter bool) string {
@@ -1330,7 +1432,7 @@ func TestVerifC24(t *testing.T) {
 	if os.Getenv("GOGC") == "" {
 		defer debug.SetGCPercent(debug.SetGCPercent(400))
 	}
-	rep.Rule = "case = one request (naming one or several resources: every ordered list of 2, thorough 3, topic names over {existing/non-existent allowed, existing/non-existent forbidden} for Metadata; allowed-before-forbidden and forbidden-before-allowed pairs for the other list-taking requests) sent as principal alice through the real handler.Handle in a world (alice's permission set, auto-create, topic t / group g existing or not, identity via client.id or via connection principal with a privileged decoy client.id), alone or after a history of earlier requests (BFS over histories, states merged by canonical broker snapshot), judged by comparing full broker snapshots before/after and decoding the reply; signature = (world, request, which needed permissions are held, reply codes and record bytes, categories of state that changed); non-trivial = alice lacks at least one permission the request needs (the oracle constrains it)"
+	rep.Rule = "case = one request (naming one or several resources: every ordered list of 2, thorough 3, topic names over {existing/non-existent allowed, existing/non-existent forbidden} for Metadata; allowed-before-forbidden and forbidden-before-allowed pairs for the other list-taking requests; topic T next to the permitted t and group G next to the permitted g - names differing only in letter case - in every request type authorized by topic or group name) sent as principal alice through the real handler.Handle in a world (alice's permission set, auto-create, topic t / group g existing or not, identity via client.id or via connection principal with a privileged decoy client.id), alone or after a history of earlier requests (BFS over histories, states merged by canonical broker snapshot), judged by comparing full broker snapshots before/after and decoding the reply; signature = (world, request, which needed permissions are held, reply codes and record bytes, categories of state that changed); non-trivial = alice lacks at least one permission the request needs (the oracle constrains it)"
 	rep.Assumptions = []string{
 		"required permission per request type as the broker's allow* calls intend: produce->produce on topic; fetch/list-offsets/offset-for-leader-epoch/describe topic config->fetch on topic; join/sync/heartbeat/leave/offset-commit->group_write; offset-fetch/describe-groups->group_read (list-groups: on all groups); delete-groups->group_admin; alter-configs/create-partitions/create-topics/delete-topics/describe broker config->cluster admin; api-versions/find-coordinator/metadata->none",
 		"Metadata: creating a missing topic is only flagged when alice holds no permission through which she could have created it anyway (admin, or produce/fetch on it - both auto-create)",
@@ -1338,6 +1440,7 @@ func TestVerifC24(t *testing.T) {
 		"the atoms produce:t / fetch:t grant the action on topic t and on topic s (s never exists initially), so that one request can name an existing and a non-existent permitted topic next to an existing (u) and a non-existent (n) forbidden one",
 		"a request naming several resources is judged resource by resource: each resource alice lacks the permission for must be untouched and answered with an authorization error, whatever else the request names (ListOffsets/OffsetForLeaderEpoch refusing the whole list is accepted)",
 		"'leaks nothing' is checked as the statement words it: no record bytes and an authorization error code in every reply entry of the unauthorized resource",
+		"topic and group names are case-sensitive resources (the store, the partition logs and the coordinator keep T and t, G and g apart): a permission on t / g is no permission on T / G; T exists with data in the worlds where t exists and is missing otherwise, G never exists initially",
 		"in-memory metadata store and fake S3 bucket stand for etcd and S3; states are merged on the observable snapshot plus the set of open partition logs (deny-log rate limiter state is ignored)",
 	}
 	var rp c24Replay
@@ -1378,7 +1481,8 @@ func TestVerifC24(t *testing.T) {
 		}
 		names = append(names, s.Name)
 	}
-	rep.SetInfo("topic_name_alphabet", "t (covered by produce:t/fetch:t; exists or not per world), s (covered by the same atoms; never exists initially), u (exists; never permitted), n (never exists; never permitted)")
+	rep.SetInfo("topic_name_alphabet", "t (covered by produce:t/fetch:t; exists or not per world), s (covered by the same atoms; never exists initially), u (exists; never permitted), n (never exists; never permitted); T (differs from t only in letter case; exists iff t exists; never permitted)")
+	rep.SetInfo("group_name_alphabet", "g (covered by group_write:g/group_read:g; exists or not per world), h (never exists; never permitted), G (differs from g only in letter case; never exists initially; never permitted)")
 	rep.SetInfo("metadata_topic_list_lengths", map[bool][]int{false: {0, 1, 2}, true: {0, 1, 2, 3}}[vh.Thorough()])
 	rep.SetInfo("worlds", len(worlds))
 	rep.SetInfo("permission_atoms", c24Atoms)
